@@ -124,6 +124,10 @@ class World:
         buoy["lat"] = ((), 12.0)
         buoy.attrs = {"title": "buoy"}
         self.buoy = buoy
+        # a DataArray the caller holds with ONE direction bin (a single-beam instrument), float64 labels
+        self.onedir = xr.DataArray(base[:, 0, :, 3:4].copy(), dims=("time", "freq", "dir"),
+                                   coords={"time": ds.time.values, "freq": S.FREQ.copy(), "dir": np.array([135.0])}, name="efth")
+        self.onedir.attrs = {"units": "m2/Hz/deg"}
         # in-memory datasets in the native layout of the model readers (what xr.open_dataset would hand to from_<model> / read_dataset)
         from harness.props import c12
         vec = {"F": [2, 3, 5, 7], "D": [0, 1440, 2880, 4320], "E": [[1, 2, 0, 3], [4, 0, 5, 1], [0, 6, 2, 2], [1, 1, 3, 0]]}
@@ -145,11 +149,11 @@ class World:
     def objects(self):
         return [self.ds, self.buffer, self.qlons_np, self.qlats_np, self.qlons_list, self.qlats_list, self.qlons_da, self.qlats_da,
                 self.dset_lons, self.dset_lats, self.bboxes, self.freq_kwargs, self.dir_kwargs, self.stats_dict, self.tgt_freq, self.tgt_dir,
-                self.native["ww3"], self.native["ncswan"], self.native["wwm"], self.native["era5"], self.ds1d, self.time_encoding, self.buoy]
+                self.native["ww3"], self.native["ncswan"], self.native["wwm"], self.native["era5"], self.ds1d, self.time_encoding, self.buoy, self.onedir]
 
     NAMES = ["dataset", "caller buffer", "query lons (ndarray)", "query lats (ndarray)", "query lons (list)", "query lats (list)",
              "query lons (DataArray)", "query lats (DataArray)", "dset_lons", "dset_lats", "bboxes list", "freq_kwargs", "dir_kwargs",
-             "stats dict", "target freq", "target dir list", "native WW3 dataset", "native SWAN-nc dataset", "native WWM dataset", "native ERA5 dataset", "1-D spectra dataset", "time_encoding dict", "single-buoy dataset (scalar lon/lat)"]
+             "stats dict", "target freq", "target dir list", "native WW3 dataset", "native SWAN-nc dataset", "native WWM dataset", "native ERA5 dataset", "1-D spectra dataset", "time_encoding dict", "single-buoy dataset (scalar lon/lat)", "one-direction DataArray"]
 
 
 def ops_table():
@@ -210,6 +214,9 @@ def ops_table():
         "to_swan_ntime": lambda W: W.ds.spec.to_swan(os.path.join(W.tmp, "b.spec"), ntime=2),
         "to_swan_buoy": lambda W: W.buoy.spec.to_swan(os.path.join(W.tmp, "c.spec")),
         "to_octopus_buoy": lambda W: W.buoy.spec.to_octopus(os.path.join(W.tmp, "c.oct")),
+        "smooth_onedir": lambda W: W.onedir.spec.smooth(3, 1),
+        "hs_onedir": lambda W: W.onedir.spec.hs(),
+        "smooth_spec_onedir": lambda W: __import__("wavespectra").core.utils.smooth_spec(W.onedir, 3, 1),
         "to_json": lambda W: W.ds.spec.to_json(os.path.join(W.tmp, "a.json")),
         "to_octopus": lambda W: W.ds.isel(site=[1]).spec.to_octopus(os.path.join(W.tmp, "a.oct")),
         "to_octopus_full": lambda W: W.ds.spec.to_octopus(os.path.join(W.tmp, "b.oct"), site_id="s"),
@@ -233,7 +240,7 @@ def run(ctx):
     names = sorted(table)
     maxlen = 2
     q = "{" + ",".join('"%s"' % n for n in names) + "}"
-    cfg = ws.write_cfg("frame_%d.cfg" % maxlen, "SPECIFICATION Spec\nCONSTANTS OPS = %s\n NOBJ = 23\n MAXLEN = %d\nPROPERTY ArgsImmutable\nINVARIANT EmitInv\n" % (q, maxlen))
+    cfg = ws.write_cfg("frame_%d.cfg" % maxlen, "SPECIFICATION Spec\nCONSTANTS OPS = %s\n NOBJ = 24\n MAXLEN = %d\nPROPERTY ArgsImmutable\nINVARIANT EmitInv\n" % (q, maxlen))
     r = ctx.tlc("Frame", cfg, workers=4, label="programs of %d calls over %d operations" % (maxlen, len(names)))
     for inv in r.violated:
         if inv != "EmitInv":
